@@ -1,6 +1,7 @@
 //! Property monitors, one module per property.
 pub mod c01;
 pub mod c11;
+pub mod c12;
 pub mod c13;
 pub mod c14;
 pub mod common;
@@ -18,6 +19,7 @@ pub struct Prop {
 
 pub const PROPS: &[Prop] = &[
     Prop { id: "C01", run: c01::run, dbg_part: true, rule: c01::RULE, assumptions: c01::ASSUMPTIONS },
+    Prop { id: "C12", run: c12::run, dbg_part: true, rule: c12::RULE, assumptions: c12::ASSUMPTIONS },
     Prop { id: "C13", run: c13::run, dbg_part: true, rule: c13::RULE, assumptions: c13::ASSUMPTIONS },
     Prop { id: "C14", run: c14::run, dbg_part: true, rule: c14::RULE, assumptions: c14::ASSUMPTIONS },
 ];
